@@ -211,6 +211,11 @@ func (m *Machine) contractCall(c *Config, call ssa.CallInstruction, callee *ssa.
 	if fc.Measure != nil && m.cur != nil && callee == m.cur.fn {
 		m.measureObligation(c, call, fc, env)
 	}
+	if fc.Depth != nil && m.cur != nil {
+		if cur := m.contracts.Funcs[m.cur.key]; cur != nil && cur.Depth != nil && cur.Depth.Label == fc.Depth.Label {
+			m.depthObligation(c, call, cur, fc, env)
+		}
+	}
 	old := st.clone()
 	// havoc the frame
 	for _, a := range fc.Assigns {
@@ -755,6 +760,33 @@ func (m *Machine) ghostInvariant(st *State, name string) {
 // at every recursive call G (evaluated in the current state) has grown since entry, or is
 // unchanged and S of the call's arguments is smaller than S of this activation's arguments.
 // Well-foundedness (G is bounded above, S is bounded below) is a stated assumption.
+// depthObligation: lexicographic decrease of (measure, rank) at a call between two members of a recursion group.
+func (m *Machine) depthObligation(c *Config, call ssa.CallInstruction, cur, callee *FuncContract, calleeEnv *Env) {
+	entryEnv := m.baseEnv(c)
+	entryEnv.cur = m.cur.old
+	ev := func(env *Env, x *Expr) (Term, bool) {
+		cv, err := m.eval(env, x)
+		if err != nil {
+			m.errs = append(m.errs, "depth: "+err.Error())
+			return Term{}, false
+		}
+		t, ok := cv.V.(Term)
+		return t, ok && t.Sort.IsBV()
+	}
+	m0, ok0 := ev(entryEnv, cur.Depth.Expr)
+	m1, ok1 := ev(calleeEnv, callee.Depth.Expr)
+	goal := TFalse
+	if ok0 && ok1 {
+		lt := And(BVSlt(m1, m0), BVSge(m1, BVLitI(0, m1.Sort.Width())))
+		if callee.Depth.Rank < cur.Depth.Rank {
+			goal = Or(lt, And(Eq(m1, m0), BVSge(m1, BVLitI(0, m1.Sort.Width()))))
+		} else {
+			goal = lt
+		}
+	}
+	m.emit(c, "variant", "depth:"+cur.Depth.Label+":"+callee.Key, cur.Depth.Props, goal, m.site(call), cur.Depth.Src)
+}
+
 func (m *Machine) measureObligation(c *Config, call ssa.CallInstruction, fc *FuncContract, calleeEnv *Env) {
 	me := fc.Measure
 	entryEnv := m.baseEnv(c)
